@@ -1,7 +1,7 @@
 (* C16 — Frame.origin and extract_outermost keep their documented contracts.
    Property theorems only (proved in P_Frames_Origin.v) about the model functions of M_Frames.v
    that the generated case files evaluate ([extract], [outermost], [flatten], [better_origin]). *)
-Require Import Base M_Frames M_Frames_Fault P_Frames_Fault P_Frames_Origin M_Chain P_Chain P_Chain_Origin.
+Require Import Base M_Frames M_Frames_Fault P_Frames_Fault M_Frames_Ambient P_Frames_Origin M_Chain P_Chain P_Chain_Origin.
 
 (* a suspended chain g0 -> g1 (generator-like objects 0 and 1 with own frames 0 and 1), a plain
    wrapper object 2 around it, an object 3 without frames, an object 4 whose unwrap raises *)
@@ -119,4 +119,29 @@ Example C16_chain_ex :
     Ok (Stack [FOut 0 false (Some 0) []; FOut 1 false (Some 2) []; FOut 2 false (Some 4) []; FOut 3 false (Some 5) []]
               (LOne (QObj 6)) []) /\
   outermost (chain_cfg ex_chain (fun _ => []) true all_guards 100) (IObj 4) = OFrame (FOut 2 false (Some 4) []).
+Proof. vm_compute. repeat split; reflexivity. Qed.
+
+(* every ambient option state (M_Frames_Ambient: the thread-local cell is None, or Some options of
+   an extraction in progress around the call, e.g. when called from a customization hook):
+   extract_outermost(x, **arg) is the first frame of extract(x, **arg) made in the same state,
+   both restore the cell, and the result does not depend on the ambient state at all *)
+Theorem C16_outermost_eq_head_any_ambient : forall cell arg c root s,
+  fst (api_extract cell arg c root) = Ok s ->
+  fst (api_outermost cell arg c root) = match s_frames s with f :: _ => OFrame f | [] => ORaise (s_errs s) end
+  /\ snd (api_outermost cell arg c root) = cell /\ snd (api_extract cell arg c root) = cell
+  /\ fst (api_outermost cell arg c root) = fst (api_outermost None arg c root).
+Proof. exact api_outermost_eq_head. Qed.
+Print Assumptions C16_outermost_eq_head_any_ambient.
+
+Theorem C16_entry_points_use_own_arguments : forall cell arg c root,
+  api_extract cell arg c root = (extract (set_wc c (fst arg)) root, cell) /\
+  api_outermost cell arg c root = (outermost (set_wc c (fst arg)) root, cell).
+Proof. exact api_ambient_independent. Qed.
+Print Assumptions C16_entry_points_use_own_arguments.
+
+Example C16_any_ambient_ex :
+  fst (api_outermost (Some (false, false)) (true, false) ex16 (IObj 2)) = OFrame (FOut 0 false (Some 0) [COut 7 []]) /\
+  fst (api_outermost (Some (true, true)) (false, false) ex16 (IObj 2)) = OFrame (FOut 0 false (Some 0) []) /\
+  fst (api_extract (Some (false, false)) (true, false) ex16 (IObj 2)) =
+    Ok (Stack [FOut 0 false (Some 0) [COut 7 []]; FOut 1 true (Some 1) []] LNone []).
 Proof. vm_compute. repeat split; reflexivity. Qed.
